@@ -1,5 +1,7 @@
 import IsoVerif.Driver.Core
 import IsoVerif.Model.Assign
+import IsoVerif.Model.JunctionCompare
+import IsoVerif.Model.JunctionSpec
 import IsoVerif.Gen.Strategies
 
 namespace IsoVerif.Driver.C01
@@ -82,6 +84,38 @@ def ofIso (I : IsoInfo) : Json :=
 def getGene (j : Json) : Except String (Option Gene) := do
   let ms ← jList jIsoform (← arg j "isoforms")
   pure (Gene.fromModels ms)
+
+def jFrac (j : Json) : Except String (Int × Int) := jPair jInt jInt j
+
+def jCParams (j : Json) : Except String CParams := do
+  let rd ← jFrac (← arg j "max_intron_rel_diff")
+  let ro ← jFrac (← arg j "min_rel_exon_overlap")
+  let rs ← jFrac (← arg j "max_suspicious_intron_rel_len")
+  pure { max_intron_shift := ← jInt (← arg j "max_intron_shift"),
+         micro_intron_length := ← jInt (← arg j "micro_intron_length"),
+         max_intron_abs_diff := ← jInt (← arg j "max_intron_abs_diff"),
+         max_intron_rel_diff_num := rd.1, max_intron_rel_diff_den := rd.2,
+         min_rel_exon_overlap_num := ro.1, min_rel_exon_overlap_den := ro.2,
+         max_suspicious_intron_abs_len := ← jInt (← arg j "max_suspicious_intron_abs_len"),
+         max_suspicious_intron_rel_len_num := rs.1, max_suspicious_intron_rel_len_den := rs.2 }
+
+/-- comparator object: params + cparams + known introns + gene region -/
+def jCmpCtx (j : Json) : Except String CmpCtx := do
+  pure { p := ← jParams (← arg j "params"), q := ← jCParams (← arg j "cparams"),
+         known := ← jIvList (← arg j "known"), geneRegion := ← jIv (← arg j "gene_region") }
+
+def ofEvents : Option (List Event) → Json
+  | none => jErr "error"
+  | some l => ofList ofEvent l
+
+def ofOptBool : Option Bool → Json
+  | none => jErr "error"
+  | some b => ofBool b
+
+def ofPair : CPair → Json
+  | .retention r i => Json.arr #[ofStr "retention", ofNat r, ofNat i]
+  | .extra r i => Json.arr #[ofStr "extra", ofNat r, ofNat i]
+  | .both r0 r1 i0 i1 => Json.arr #[ofStr "both", ofNat r0, ofNat r1, ofNat i0, ofNat i1]
 
 def cjOf (l : List (Option (List Event))) : Nat → Option (List Event) := fun i => l.getD i none
 
@@ -187,6 +221,55 @@ def ops : List (String × Handler) := [
           | none => pure (jErr "error")
           | some none => pure (Json.mkObj [("assignment", Json.null), ("consistent", cons)])
           | some (some a) => pure (Json.mkObj [("assignment", ofAssignment a .consistent), ("consistent", cons)])),
+  ("tolerance", fun j => do
+      -- the hypotheses of Props/C01Converse `far_intron_major_event`, decided per read intron
+      let c ← jCmpCtx j
+      let rj ← jIvList (← arg j "read_junctions")
+      let rr ← jIv (← arg j "read_region")
+      let ij ← jIvList (← arg j "iso_junctions")
+      let ir ← jIv (← arg j "iso_region")
+      let wf := chainsWFb c.p.delta rj rr ij ir
+      let rows := rj.zipIdx.map (fun (r, i) =>
+        Json.mkObj [("far", ofBool (ij.all (fun k => !equal_ranges k r c.p.delta))),
+                    ("tolerated", ofBool (tolerated c rj rr ij ir i r)),
+                    ("terminal_misalignment_class", ofBool (terminalMisalignmentClass c rj rr ij ir i))])
+      pure (Json.mkObj [("chains_wf", ofBool wf), ("introns", Json.arr rows.toArray),
+        ("no_contradiction", ofBool (!(hasNeg (sweepOf c rj rr ij ir).readProf || hasNeg (sweepOf c rj rr ij ir).isoProf)))])),
+  ("cmp_tables", fun _ => do
+      pure (Json.mkObj [
+        ("alternative_sites", ofList (fun (p : (String × Bool) × MatchEventSubtype) =>
+            Json.arr #[ofStr p.1.1, ofBool p.1.2, ofStr p.2.name]) alternative_sites_table),
+        ("suspicious_alternation_events", ofList (fun (t : MatchEventSubtype) => ofStr t.name) suspicious_alternation_events),
+        ("comparator_event_types", ofList (fun (t : MatchEventSubtype) => ofStr t.name) comparator_event_types)])),
+  ("known_introns", fun j => do
+      let c ← jCmpCtx j
+      pure (ofOptBool (knownIntrons c (← jIvList (← arg j "junctions")) (← jNat (← arg j "a")) (← jNat (← arg j "b"))))),
+  ("suspicious_introns", fun j => do
+      let c ← jCmpCtx j
+      pure (ofOptBool (suspiciousIntrons c (← jIv (← arg j "read_region")) (← jIvList (← arg j "junctions"))
+        (← jNat (← arg j "a")) (← jNat (← arg j "b"))))),
+  ("add_extra_out", fun j => do
+      let c ← jCmpCtx j
+      pure (ofEvents (addExtraOut c (← jList jInt (← arg j "profile")) (← jIv (← arg j "read_region"))
+        (← jIvList (← arg j "junctions")) (← jInt (← arg j "isoform_start"))))),
+  ("sweep", fun j => do
+      let c ← jCmpCtx j
+      let o := sweepOf c (← jIvList (← arg j "read_junctions")) (← jIv (← arg j "read_region"))
+        (← jIvList (← arg j "iso_junctions")) (← jIv (← arg j "iso_region"))
+      pure (Json.mkObj [("read", ofIntList o.readProf), ("iso", ofIntList o.isoProf), ("pairs", ofList ofPair o.pairs)])),
+  ("compare", fun j => do
+      let c ← jCmpCtx j
+      pure (ofEvents (compareJunctions c (← jIvList (← arg j "read_junctions")) (← jIv (← arg j "read_region"))
+        (← jIvList (← arg j "iso_junctions")) (← jIv (← arg j "iso_region"))))),
+  ("assign_m", fun j => do
+      let p ← jParams (← arg j "params")
+      let q ← jCParams (← arg j "cparams")
+      let blocks ← jIvList (← arg j "blocks")
+      let pa ← jPolyA (← arg j "polya")
+      let ms ← jList jIsoform (← arg j "isoforms")
+      match assignReadM ms p q blocks pa with
+      | none => pure (jErr "error")
+      | some (a, path) => pure (ofAssignment a path)),
   ("assign", fun j => do
       let p ← jParams (← arg j "params")
       let blocks ← jIvList (← arg j "blocks")
